@@ -118,12 +118,15 @@ Arguments Ok {A}. Arguments Err {A}.
 Definition subseteqb (a b : cset) : bool := bool_decide (a ⊆ b).
 
 (* supply.AllocateCPU + bookkeeping of allocatePool *)
+(* "exclusive reserved CPUs not supported, allocating full CPUs as fractions" *)
+Definition eff_full (r : creq) : Z :=
+  match r_type r with CpuReserved => if 0 <? r_full r then 0 else r_full r | _ => r_full r end.
+Definition eff_frac (r : creq) : Z :=
+  match r_type r with CpuReserved => if 0 <? r_full r then r_fraction r + 1000 * r_full r else r_fraction r | _ => r_fraction r end.
+
 Definition ta_alloc (t : tree) (s : st) (cid : nat) (r : creq) (p : nat) (X : cset) : res st :=
-  let full0 := r_full r in
-  let frac0 := r_fraction r in
-  let '(full, frac) := match r_type r with
-                       | CpuReserved => if 0 <? full0 then (0, frac0 + 1000 * full0) else (full0, frac0)
-                       | _ => (full0, frac0) end in
+  let full := eff_full r in
+  let frac := eff_frac r in
   let ty := match r_type r with
             | CpuReserved => if (0 <? frac) && (alloc_reserved t s p <? frac) then CpuNormal else CpuReserved
             | x => x end in
@@ -244,7 +247,9 @@ Definition told_shares (g : grant) : Z :=
 Record obs_pool := { o_free_iso : list nat; o_free_shar : list nat; o_gr_shared : Z; o_gr_reserved : Z;
                      o_alloc_shared : Z; o_alloc_reserved : Z }.
 Record obs_grant := { og_cid : nat; og_pool : nat; og_excl : list nat; og_type : cputype; og_portion : Z }.
-Record obs := { ob_pools : list obs_pool; ob_grants : list obs_grant }.
+(* what a granted, CPU-pinned container was told (cache view): cpuset and cpu.shares *)
+Record obs_told := { ot_cid : nat; ot_cpus : list nat; ot_shares : Z }.
+Record obs := { ob_pools : list obs_pool; ob_grants : list obs_grant; ob_told : list obs_told }.
 
 Definition lset (l : list nat) : cset := list_to_set l.
 
@@ -266,11 +271,18 @@ Definition grant_matches (s : st) (o : obs_grant) : bool :=
               && cputype_eqb (g_type g) (og_type o) && (g_portion g =? og_portion o)
   end.
 
+Definition told_matches (t : tree) (s : st) (o : obs_told) : bool :=
+  match grants s !! ot_cid o with
+  | None => false
+  | Some g => bool_decide (told_cpus t s g = lset (ot_cpus o)) && (told_shares g =? ot_shares o)
+  end.
+
 (* result of checking one trace: None = agrees everywhere *)
 Inductive mismatch :=
 | MStep (i : nat) (e : err)          (* the model refuses step i the implementation took *)
 | MPool (i : nat) (q : nat)          (* after step group i pool q differs *)
 | MGrant (i : nat)                   (* after step group i the grant tables differ *)
+| MTold (i : nat) (cid : nat)        (* after step group i container cid's cpuset / cpu.shares differ *)
 .
 
 Definition check_obs (t : tree) (s : st) (i : nat) (o : obs) : option mismatch :=
@@ -278,7 +290,11 @@ Definition check_obs (t : tree) (s : st) (i : nat) (o : obs) : option mismatch :
   | Some q => Some (MPool i q)
   | None =>
     if forallb (grant_matches s) (ob_grants o) && Nat.eqb (size (grants s)) (length (ob_grants o))
-    then None else Some (MGrant i)
+    then match filter (fun ot => negb (told_matches t s ot)) (ob_told o) with
+         | [] => None
+         | ot :: _ => Some (MTold i (ot_cid ot))
+         end
+    else Some (MGrant i)
   end.
 
 (* a trace = groups of operations (one NRI event each) with the snapshot taken after the event *)
@@ -342,4 +358,92 @@ Fixpoint guard_trace (t : tree) (s : st) (i : nat) (tr : list (list op * obs)) :
     | Err _ => []
     | Ok s' => (if bad then [i] else []) ++ guard_trace t s' (S i) tr'
     end
+  end.
+
+(* ---- eligibility rules: cpuAllocationPreferences (pod-preferences.go) as a decision table ---- *)
+Inductive qos := Guaranteed | Burstable | BestEffort.
+Inductive prefkind := PrefImplicit | PrefConfig | PrefAnnotated.
+Record prefin := {
+  pi_qos : qos; pi_milli : Z;
+  pi_preserve : bool;              (* cpu.preserve effective annotation *)
+  pi_prefer_reserved : bool; pi_explicit_reservation : bool;   (* prefer-reserved-cpus annotation: value, present *)
+  pi_ns_reserved : bool;           (* kube-system or a configured reserved namespace *)
+  pi_isolated : bool; pi_isolated_kind : prefkind;
+  pi_shared : bool; pi_shared_kind : prefkind;
+}.
+Definition prefkind_annotated (k : prefkind) : bool := match k with PrefAnnotated => true | _ => false end.
+
+Definition cpu_prefs (i : prefin) : creq :=
+  let fraction := pi_milli i in
+  let mk full frac iso ty := {| r_full := full; r_fraction := frac; r_isolate := iso; r_type := ty |} in
+  if pi_preserve i then mk 0 fraction false CpuPreserve
+  else if pi_prefer_reserved i then mk 0 fraction false CpuReserved
+  else if pi_ns_reserved i && negb (pi_explicit_reservation i) then mk 0 fraction false CpuReserved
+  else match pi_qos i with
+  | Burstable => mk 0 fraction false CpuNormal
+  | BestEffort => mk 0 0 false CpuNormal
+  | Guaranteed =>
+    let cores := Z.quot fraction 1000 in
+    let frac := Z.rem fraction 1000 in
+    if cores =? 0 then mk 0 frac false CpuNormal
+    else if cores <? 2 then
+      if pi_shared i then mk 0 (1000 * cores + frac) false CpuNormal
+      else mk cores frac (pi_isolated i) CpuNormal
+    else if 0 <? frac then
+      if negb (pi_shared i) && prefkind_annotated (pi_shared_kind i) then mk cores frac (pi_isolated i) CpuNormal
+      else mk 0 (1000 * cores + frac) false CpuNormal
+    else if pi_shared i then mk 0 (1000 * cores) false CpuNormal
+    else mk cores 0 (pi_isolated i && prefkind_annotated (pi_isolated_kind i)) CpuNormal
+  end.
+
+Definition creq_eqb (a b : creq) : bool :=
+  (r_full a =? r_full b) && (r_fraction a =? r_fraction b) && Bool.eqb (r_isolate a) (r_isolate b) && cputype_eqb (r_type a) (r_type b).
+
+(* the exclusive CPU count a successful allocation grants for a request (AllocateCPU) *)
+Definition granted_full (r : creq) : Z :=
+  match r_type r with CpuReserved => 0 | _ => if 0 <? r_full r then r_full r else 0 end.
+
+(* correspondence checker for the decision table: indices of disagreeing cases *)
+Fixpoint prefs_mismatches (i : nat) (cs : list (prefin * creq)) : list nat :=
+  match cs with
+  | [] => []
+  | (inp, out) :: cs' => (if creq_eqb (cpu_prefs inp) out then [] else [i]) ++ prefs_mismatches (S i) cs'
+  end.
+
+(* stronger well-formedness used by the capacity theorem: isolated and sharable CPUs are
+   globally disjoint *)
+Definition tree_wfb2 (t : tree) : bool :=
+  tree_wfb t && forallb (fun p => forallb (fun q => bool_decide (p_iso (pool_at t p) ## p_shar (pool_at t q))) (pools t)) (pools t).
+
+(* the guard of the capacity theorem along a history (TA_Cap2.run_g uses the same predicate) *)
+Definition op_guardb (t : tree) (s : st) (o : op) : bool :=
+  match o with
+  | OAlloc _ _ p X => desc_safeb t s p X
+  | OReserve _ g => desc_safeb t s (g_pool g) (g_excl g) && (0 <=? g_portion g)
+  | _ => true
+  end.
+
+(* guard failures along a multi-segment trace: (segment, event group) pairs where some operation
+   did not pass [op_guardb] *)
+Fixpoint guard_trace2 (t : tree) (s : st) (i : nat) (tr : list (list op * obs)) : list nat :=
+  match tr with
+  | [] => []
+  | (os, _) :: tr' =>
+    let fix go (s : st) (os : list op) : bool * res st :=
+      match os with
+      | [] => (false, Ok s)
+      | o :: os' => match step t s o with
+                    | Ok s' => let '(b, r) := go s' os' in (negb (op_guardb t s o) || b, r)
+                    | Err e => (negb (op_guardb t s o), Err e)
+                    end
+      end in
+    match go s os with
+    | (bad, Ok s') => (if bad then [i] else []) ++ guard_trace2 t s' (S i) tr'
+    | (bad, Err _) => if bad then [i] else []
+    end
+  end.
+Fixpoint guard_segments (i : nat) (segs : list (tree * list (list op * obs))) : list (nat * nat) :=
+  match segs with
+  | [] => []
+  | (t, tr) :: segs' => map (fun g => (i, g)) (guard_trace2 t (init t) 0 tr) ++ guard_segments (S i) segs'
   end.
